@@ -1,5 +1,7 @@
 """C20 — each service request gets exactly one final response with its message ID."""
 from contracts import svc as S
+from contracts import assoc_serve as AS
+from pyvc.repo import Repo
 
 PROPERTY = "C20"
 LEVEL = "proof"
@@ -18,8 +20,9 @@ NOT_DECIDED = []
 
 
 def tasks(tier):
-    return ([S.WrapHandlerTask("C20/"), S.FindScpTask("C20/"), S.GetMoveScpTask("get"), S.GetMoveScpTask("move")]
-            + [S.SingleScpTask(w) for w in S.SINGLE])
+    return ([S.FindScpTask("C20/", table=t) for t in S.find_scp_tables(Repo())] + [S.WrapHandlerTask("C20/"), S.GetMoveScpTask("get"), S.GetMoveScpTask("move")]
+            + [S.SingleScpTask(w) for w in S.SINGLE] + [S.RelevantPatientTask()]
+            + [S.DispatchTask(m, c) for m, c in S.dispatcher_classes(Repo())] + [AS.ServeTask()])
 
 
 def replay(rec):
